@@ -1335,6 +1335,7 @@ def run(ctx):
                 ctx.count("outcome:" + piece)
 
     float_division(ctx, rng)
+    float_execution(ctx, rng, quick)
 
     model = common.driver(ctx.pid, reqs)
     bad = [i for i in range(len(reqs))
@@ -1409,6 +1410,114 @@ def float_division(ctx, rng):
                    f"evaluated by CPython ({len(pairs)} pairs, {beyond} beyond 2^53, "
                    f"{differ} where it is not T // c)", "correspondence", not bad, "\n".join(bad[:5]))
     ctx.count("float-division:pairs", len(pairs))
+
+
+def float_execution(ctx, rng, quick):
+    """Round 5: `phase_mean()` / `anomaly()` of float64 observables with *arbitrary* doubles (not
+    dyadic toy values) against the Lean model of the computation as executed in IEEE binary64
+    (`flPhaseMeanLoop`, `flAnomalyOf`: every + / - / division rounded to nearest-even, the sum over
+    axis 0 row after row).  Theorems `ieee_phase_mean_error` / `ieee_anomaly_add_phase_mean` are
+    about exactly that model.  The property does not fix the order of summation, and NumPy uses
+    another one (pairwise, eight accumulators) for phases with 8 or more samples when the reduced
+    axis is contiguous, so an entry must either equal the model bit for bit or -- any other order --
+    lie within the bound proved for every order (`float_phase_mean_error`, `float_addback_error`),
+    evaluated in exact arithmetic.  Shapes and NaN rows must agree exactly."""
+    from pyunicorn.core import GeoGrid
+    from pyunicorn.climate import ClimateData
+    u = Fraction(1, 2 ** 53)
+    reqs, impl, meta = [], [], []
+    for _ in range(120 if quick else 1200):
+        T = rng.choice([1, 2, 3, 5, 7, 8, 9, 12, 16, 17, 24, 33, 40])
+        N = rng.choice([1, 1, 2, 3, 5])
+        c = rng.choice([1, 2, 3, 4, 5, 7, 12, 13])
+        kind = rng.choice(["gauss", "gauss", "wide", "cancel", "dyadic", "neg"])
+        def val():
+            if kind == "gauss":
+                return rng.gauss(0, 1)
+            if kind == "wide":
+                return rng.gauss(0, 1) * 10.0 ** rng.choice([-30, -3, 0, 3, 30])
+            if kind == "cancel":
+                return rng.choice([1e16, -1e16, 1.0, -1.0, 3.14]) + rng.random()
+            if kind == "neg":
+                return -abs(rng.gauss(5, 1))
+            return rng.randrange(-64, 64) / 8.0
+        obs = np.array([[val() for _ in range(N)] for _ in range(T)], dtype=float)
+        layout = rng.choice(["C", "F", "strided"])
+        grid = GeoGrid(np.arange(T, dtype=float), np.arange(N, dtype=float),
+                       np.arange(N, dtype=float), 2)
+        w = None
+        if T > 2 and rng.random() < 0.4:
+            w = {"time_min": 1., "time_max": float(T - 1), "lat_min": 0.,
+                 "lat_max": float(max(N - 2, 0)), "lon_min": 0., "lon_max": float(N)}
+        with quiet():
+            d = ClimateData(lay_out(obs, layout), grid, c, window=w, silence_level=2)
+            O = np.array(d.observable(), dtype=float)
+            pm, an = np.asarray(d.phase_mean()), np.asarray(d.anomaly())
+        reqs.append(f"flt {c} " + ";".join(enc_vec(r) for r in O))
+        impl.append((O, pm, an))
+        meta.append(f"T={O.shape[0]} N={O.shape[1]} c={c} values={kind} layout={layout} window={w}")
+        ctx.count("float64-execution:values:" + kind)
+    model = common.driver(ctx.pid, reqs)
+    bad, n_exact, n_other, n_entries = [], 0, 0, 0
+    for req, (O, pm, an), m, what in zip(reqs, impl, model, meta):
+        c = int(req.split()[1])
+        try:
+            mpm, man = m.split("|")
+            if (mpm.split(":")[0], man.split(":")[0]) != (f"{pm.shape[0]}x{pm.shape[1]}",
+                                                          f"{an.shape[0]}x{an.shape[1]}"):
+                bad.append(f"{what}: shapes model {mpm.split(':')[0]} / {man.split(':')[0]}, "
+                           f"implementation {pm.shape} / {an.shape}")
+                continue
+            mrows = mpm.split(":", 1)[1].split(";")
+            arows = [[Fraction(x) for x in r.split(",")] for r in man.split(":", 1)[1].split(";")]
+        except (ValueError, IndexError):
+            bad.append(f"{what}: unreadable model answer {m[:120]}")
+            continue
+        FO = frac_mat(O)
+        for i in range(c):
+            nan_impl = bool(np.all(np.isnan(pm[i])))
+            if (mrows[i] == "nan") != nan_impl:
+                bad.append(f"{what}: NaN row {i}: model {mrows[i] == 'nan'}, implementation {nan_impl}")
+                continue
+            if nan_impl:
+                continue
+            mrow = [Fraction(x) for x in mrows[i].split(",")]
+            k = len(range(i, len(FO), c))
+            for j in range(O.shape[1]):
+                n_entries += 1
+                v = fr(pm[i, j])
+                if v == mrow[j]:
+                    n_exact += 1
+                    continue
+                n_other += 1
+                ctx.count("float64-execution:other-order:" + ("k<8" if k < 8 else "k>=8"))
+                col = [FO[t][j] for t in range(i, len(FO), c)]
+                bound = ((1 + u) ** k - 1) * sum(abs(x) for x in col) / k
+                if abs(v - sum(col) / k) > bound:
+                    bad.append(f"{what}: phase_mean()[{i},{j}] = {float(v)!r} is neither the binary64 "
+                               f"model's {float(mrow[j])!r} nor within the proved bound {float(bound):.3g} "
+                               f"of the exact mean {float(sum(col) / k)!r}")
+        for t in range(O.shape[0]):
+            for j in range(O.shape[1]):
+                n_entries += 1
+                a = fr(an[t, j])
+                if a == arows[t][j]:
+                    n_exact += 1
+                    continue
+                n_other += 1
+                mh = fr(pm[t % c, j])
+                if abs(a + mh - FO[t][j]) > u * abs(FO[t][j] - mh):
+                    bad.append(f"{what}: anomaly()[{t},{j}] = {float(a)!r} is neither the binary64 "
+                               f"model's {float(arows[t][j])!r} nor within one rounding of "
+                               f"observable - phase_mean")
+    ctx.obligation(
+        f"correspondence: phase_mean() / anomaly() of float64 observables == the IEEE binary64 model "
+        f"as executed ({len(reqs)} objects, {n_entries} entries: {n_exact} bit for bit, {n_other} "
+        f"summed in another order and within the bound proved for every order)",
+        "correspondence", not bad, "\n".join(bad[:5]))
+    ctx.count("float64-execution:entries", n_entries)
+    ctx.count("float64-execution:bit-exact", n_exact)
+    ctx.count("float64-execution:other-order", n_other)
 
 
 class _Probe:
